@@ -44,6 +44,9 @@ MIN = {'quick': {'distinct': 600,
                            'global state snapshots': 3000,
                            'additivity checks': 60},
                  'strata': {'slash annotation under hash seeds': 40,
+                            'punctuation-only constituent under ten node-id '
+                            'offsets': 200,
+                            'bracket between hyphens under hash seeds': 28,
                             'op read2': 50, 'op pipeline': 80,
                             'read2: compressed inputs with the same base '
                             'name': 12, 'op cli': 200, 'op grammar': 200,
@@ -119,11 +122,19 @@ def state_diff(a, b):
 def small_bank(rng, k, cont=False, pools=None):
     pools = pools or gen.Pools(edges=['HD', 'NK', 'SB', '--'])
     first = 0 if rng.random() < 0.25 else 1     # a sentence numbered 0
-    return [gen.tree(rng, rng.randint(1, 8), pools,
+    bank = [gen.tree(rng, rng.randint(1, 8), pools,
                      max_arity=rng.choice([2, 3, 4]), p_unary=0.15,
                      moves=0 if cont else rng.choice([0, 1, 2]),
                      sid=j + first)
             for j in range(k)]
+    if k >= 2 and rng.random() < 0.2:
+        # two readings of one sentence: the last tree has the words and tags
+        # of an earlier one, and another structure
+        bank[-1] = gen.same_sentence(
+            rng, bank[rng.randrange(k - 1)], pools, sid=bank[-1]['sid'],
+            max_arity=rng.choice([2, 3, 4]), p_unary=0.15,
+            moves=0 if cont else rng.choice([0, 1, 2]))
+    return bank
 
 
 def trace_spec(rng):
@@ -328,8 +339,21 @@ def make_op(rng, tag, tfiles):
             argv += ['--dest-opts', 'brackets_emptyroot']
         elif r < 0.5:
             argv += ['--dest-opts', 'gf', 'gf_separator:=']
-        if rng.random() < 0.2:
-            argv += ['--split', '50%_rest']
+        if rng.random() < 0.25:
+            # two parts or three (sizes that the 3..5 trees of the bank meet)
+            spec_ = rng.choice(['50%_rest', '1#_1#_rest', '1#_rest_1#',
+                                'rest_1#_1#', '30%_30%_rest', '2#_rest'])
+            if spec_ != '50%_rest':
+                bank = small_bank(rng, rng.randint(3, 5), cont=True,
+                                  pools=gen.Pools(cats=['S', 'NP', 'VP'],
+                                                  edges=['HD', 'NK', '--']))
+                text = {'export': lambda: codec.export_encode(bank),
+                        'brackets': lambda: codec.brackets_encode(bank),
+                        'discobrackets': lambda:
+                        codec.discobrackets_encode(bank),
+                        'tigerxml': lambda: codec.tigerxml_encode(bank)
+                        }[sfmt]()
+            argv += ['--split', spec_]
         return {'k': 'cli', 'argv': argv, 'sfmt': sfmt, 'text': text,
                 'tag': tag}
     if sub == 'treeanalysis':
@@ -628,6 +652,39 @@ def additivity(ctx, rng):
     cont = what != 'analysis'
     A = small_bank(rng, rng.randint(1, 3), cont=cont)
     B = small_bank(rng, rng.randint(1, 3), cont=cont)
+    if what == 'grammar':
+        # few labels, so that the same production is seen in both treebanks;
+        # discontinuous trees more often than not
+        gp = gen.Pools(cats=['S', 'NP', 'VP'], pos=['NN', 'VV', 'ART'])
+        disc = rng.random() < 0.6
+        A = small_bank(rng, rng.randint(1, 3), cont=not disc, pools=gp)
+        B = small_bank(rng, rng.randint(1, 3), cont=not disc, pools=gp)
+        if rng.random() < 0.4:
+            # the same production over the same tags twice: once its two
+            # children side by side, once a continuous node whose first child
+            # is discontinuous and has its gap filled by the second child
+            def tok(n, w, p_):
+                return {'n': n, 'w': w, 'p': p_, 'e': '--', 'm': '--',
+                        'lm': '--'}
+
+            def sent(order):
+                a, b, c = order
+                return {'sid': 1, 'root': {'l': 'VROOT', 'e': '--', 'c': [
+                    {'l': 'VP', 'e': '--', 'c': [
+                        {'l': 'NP', 'e': '--', 'c': [tok(a, 'das', 'ART'),
+                                                     tok(b, 'Buch', 'NN')]},
+                        {'l': 'VV', 'e': '--', 'c': [tok(c, 'lesen', 'VV')]
+                         } if rng.random() < 0.5 else tok(c, 'lesen', 'VV')]}]}}
+            st = rng.getstate()
+            plain = sent((1, 2, 3))
+            rng.setstate(st)
+            inter = sent((1, 3, 2))
+            if rng.random() < 0.5:
+                A.append(plain), B.append(inter)
+            else:
+                A.append(inter), B.append(plain)
+            ctx.stratum('grammar additivity: one production side by side and '
+                        'interleaved')
     if what == 'read' and rng.random() < 0.15:
         # files longer than any read buffer (> 8192 characters together)
         A = small_bank(rng, rng.randint(40, 70), cont=True)
@@ -698,7 +755,7 @@ def additive_case(ctx, case, tmp):
     elif what == 'grammar':
         mode = case['mode']
         outs = []
-        for tag, bank in (('a', A), ('b', B), ('ab', A + B)):
+        for tag, bank in (('a', A), ('b', B), ('ab', A + B), ('ba', B + A)):
             outs.append(run({'k': 'grammar', 'bank': bank, 'mode': mode,
                              'reo': 'none' if mode else None, 'fmt': 'pmcfg',
                              'tag': tag}))
@@ -708,11 +765,15 @@ def additive_case(ctx, case, tmp):
         except Exception as e:
             ctx.fail('C18:additivity-grammar-undecodable', case, repr(e))
             return
-        if dec[0] + dec[1] != dec[2] or lex[0] + lex[1] != lex[2]:
+        if dec[0] + dec[1] != dec[2] or lex[0] + lex[1] != lex[2] \
+                or dec[3] != dec[2] or lex[3] != lex[2]:
             ctx.fail('C18:not-additive:grammar%s' % ('-markov' if mode else ''),
-                     case, 'grammar(A+B) != grammar(A)+grammar(B): %r'
+                     case, 'grammar(A+B) != grammar(A)+grammar(B), or '
+                     'grammar(B+A) differs from it: %r'
                      % (list(((dec[0] + dec[1]) - dec[2]).items())[:2]
-                        + list((dec[2] - (dec[0] + dec[1])).items())[:2],))
+                        + list((dec[2] - (dec[0] + dec[1])).items())[:2]
+                        + list((dec[3] - dec[2]).items())[:2]
+                        + list((dec[2] - dec[3]).items())[:2],))
             return
     elif what == 'analysis':
         import re
@@ -764,9 +825,100 @@ def additive_case(ctx, case, tmp):
     ctx.case(case, nontrivial=True)
 
 
+def punct_only_spec(rng):
+    """A tree with a constituent that consists of two or more punctuation
+    tokens and nothing else."""
+    from .oracle_c13 import punct_tree
+    spec = None
+    for _ in range(60):
+        spec = punct_tree(rng)
+        if len(gen.tokens_of(spec['root'])) > 40:
+            continue
+        for c in gen.walk(spec['root']):
+            if 'c' in c and c is not spec['root'] and len(c['c']) >= 2 and \
+                    all('c' not in k and k['w'] in gen.PUNCT for k in c['c']):
+                return spec
+    return spec
+
+
+HYPHEN_BRACKET_WORDS = ['L-(-)-Carnitin', ':-(-:', 'a-)-b', '-(-', 'x-[-y',
+                        '-}-', '(-)', '-(-)-', 'D-(+)-Glucose']
+
+
+def node_id_probe(ctx, rng):
+    """The same transformation of the same tree, the process-wide node-id
+    counter standing at ten different values: what is produced depends on
+    the sentence, not on how many nodes were made before."""
+    R = ctx.R
+    seqs = [['punctuation_root'], ['punctuation_symetrify'],
+            ['punctuation_verylow'], ['root_attach', 'punctuation_root'],
+            ['punctuation_root', 'punctuation_verylow'],
+            ['punctuation_delete'], ['negra_mark_heads', 'binarize'],
+            ['root_attach', 'negra_mark_heads', 'boyd_split', 'raising'],
+            ['collapse_unary_chains', 'uncollapse_unary_chains']]
+    op = {'k': 'trans', 'names': rng.choice(seqs),
+          'spec': punct_only_spec(rng), 'params': {},
+          'shuffle': rng.randrange(99)}
+    tmp = ctx.path('.ids')
+    os.mkdir(tmp)
+    outs = []
+    for k in range(10):
+        for _ in range(k % 4 + (13 if k == 7 else 0)):
+            R.trees.Tree({})
+        outs.append(norm(c18_ops.execute(R, copy.deepcopy(op), tmp, set())))
+        if outs[-1] != outs[0]:
+            ctx.fail('C18:output-depends-on-node-ids:' + op_shape(op),
+                     {'kind': 'ids', 'op': op},
+                     'the same operation on the same tree, run %d: %s | '
+                     'run 1: %s' % (k + 1, str(outs[-1])[:300],
+                                    str(outs[0])[:300]))
+            return
+    ctx.hook('node-id offset probes')
+    ctx.stratum('punctuation-only constituent under ten node-id offsets')
+    ctx.case(['ids', op['names'], op['spec']['root']], nontrivial=True)
+
+
+def hyphen_bracket_probe(ctx, rng):
+    """Words in which a bracket stands between hyphens, written by the
+    bracket writers / read with replace_parens under several hash seeds: the
+    replacements of the bracket table do not commute on them."""
+    spec = small_bank(rng, 1, cont=True)[0]
+    toks = gen.tokens_of(spec['root'])
+    for t in rng.sample(toks, min(len(toks), rng.choice([1, 2]))):
+        t['w'] = rng.choice(HYPHEN_BRACKET_WORDS)
+        if t.get('lm') not in (None, '--'):
+            t['lm'] = t['w']
+    if rng.random() < 0.5:
+        op = {'k': 'write', 'fmt': rng.choice(['brackets', 'discobrackets']),
+              'spec': spec, 'opts': {}, 'shuffle': rng.randrange(99)}
+    else:
+        fmt = rng.choice(['export', 'tigerxml'])
+        text = codec.export_encode([spec]) if fmt == 'export' \
+            else codec.tigerxml_encode([spec])
+        op = {'k': 'read', 'fmt': fmt, 'text': text,
+              'opts': {'quiet': True, 'replace_parens': True}}
+    tmp = ctx.path('.hyph')
+    os.mkdir(tmp)
+    here = norm(c18_ops.execute(ctx.R, copy.deepcopy(op), tmp, set()))
+    for hs in (1, 2, 3, 4, 5):
+        out, err = fresh(ctx, op, hs)
+        if out is not None and out != here:
+            ctx.fail('C18:differs-from-fresh-process:' + op_shape(op),
+                     {'kind': 'fresh', 'op': op, 'hashseed': hs,
+                      'pool': [op], 'seq': [0]},
+                     'in this process: %s | PYTHONHASHSEED=%s fresh: %s'
+                     % (str(here)[:300], hs, str(out)[:300]))
+            break
+    ctx.stratum('bracket between hyphens under hash seeds')
+
+
 def shard(ctx):
     for i in ctx.indices(ctx.pick(160, 2500)):
         run_session(ctx, i, ctx.rng('session', i))
+    for i in ctx.indices(ctx.pick(240, 6000)):
+        node_id_probe(ctx, ctx.rng('ids', i))
+    for i in ctx.indices(ctx.pick(32, 800)):
+        hyphen_bracket_probe(ctx, ctx.rng('hyph', i))
     # slash annotation under several hash seeds (set/dict iteration order)
     for i in ctx.indices(ctx.pick(48, 1500)):
         rng = ctx.rng('slash', i)
@@ -821,5 +973,18 @@ def replay(ctx, case):
             ctx.fail('C18:differs-from-fresh-process:' + op_shape(case['op']),
                      case, '%s vs %s' % (str(outs[idx[0]])[:300],
                                          str(out)[:300]))
+    elif case['kind'] == 'ids':
+        outs = []
+        for k in range(10):
+            for _ in range(k % 4 + (13 if k == 7 else 0)):
+                R.trees.Tree({})
+            outs.append(norm(c18_ops.execute(R, copy.deepcopy(case['op']),
+                                             tmp, set())))
+            if outs[-1] != outs[0]:
+                ctx.fail('C18:output-depends-on-node-ids:'
+                         + op_shape(case['op']), case,
+                         'run %d: %s | run 1: %s' % (
+                             k + 1, str(outs[-1])[:300], str(outs[0])[:300]))
+                break
     else:
         additive_case(ctx, case, tmp)
